@@ -82,6 +82,7 @@ fn main() {
         "c09_porcelain" => c09::porcelain(&v),
         "c09_note_text" => c09::note_text(&v),
         "c12_profile" => c12::profile(&v),
+        "c12_callsite" => c12::callsite(&v),
         "c16_tokenize" => c16::tokenize(&v),
         "c16_lines" => c16::lines(&v),
         "c16_update" => c16::update(&v),
